@@ -1,4 +1,5 @@
 import CoapVerif.Model.Block
+import CoapVerif.Model.BlockCrcv
 import CoapVerif.Generated.BlockConst
 /- Line-protocol driver for C09 Layer A (block option codec, size negotiation, slicing, received ranges,
    body reassembly, single-body receiver step).  Output formats mirror harness/block.c. -/
@@ -12,6 +13,7 @@ import CoapVerif.Generated.BlockConst
 -- DRIVER-OPS: bbody => Coap.Driver.Block.bodyStep
 -- DRIVER-OPS: srcv => Coap.Driver.Block.srcvStep
 -- DRIVER-OPS: srcv2 => Coap.Driver.Block.srcv2Step
+-- DRIVER-OPS: crcv => Coap.Driver.Block.crcvLine
 namespace Coap.Driver.Block
 open Coap Coap.Block
 
@@ -184,6 +186,62 @@ def step (op : String) (args : List String) : String :=
       | some its => "M " ++ String.intercalate "," (srcv2Run maxBlk (mkBody bodyLen seed) (if d = "-" then none else nat? d) its none [])
     | _, _, _ => "bad-op"
   | _, _ => "bad-op"
+
+/-! ## `crcv`: the client's Block2 receive path (Model/BlockCrcv.lean) -/
+
+/-- what `coap_get_data_large` shows of a PDU without `body_data`: no payload → total 0; total 0 → the length -/
+def showDeliv (tag : String) (off : Nat) (p : Bytes) (total : Nat) : String :=
+  let t := if p.length = 0 then 0 else if total = 0 then p.length else total
+  s!"{tag}{off}:{p.length}:{t}:{hex8 (fnv p)}"
+
+def showCrcvOut : CrcvOut → String
+  | .plain p => showDeliv "h" 0 p p.length
+  | .randomAccess off p total => showDeliv "h" off p total
+  | .err402 => "e402"
+  | .err408 => "e408"
+  | .restart szx => s!"s+q0.{szx}"
+  | .skip => "s"
+  | .next n szx => s!"s+q{n}.{szx}"
+  | .wait => "s"
+  | .block off p total nx =>
+    showDeliv "h" off p total ++ (match nx with | some (n, szx) => s!"+q{n}.{szx}" | none => "")
+  | .last off p total => showDeliv "H" off p total
+  | .body data len => s!"H0:{len}:{len}:{hex8 (fnv (data.take len))}"
+
+def showCrcvState : Option Crcv → String
+  | none => "-"
+  | some lg => if lg.initial then "I" else "R" ++ String.intercalate "+" (lg.recv.map fun r => s!"{r.1}-{r.2}")
+
+def crcvRun (single : Bool) (body : Bytes) (size2 : Option Nat) :
+    List (List Nat) → Option Crcv → List String → List String
+  | [], _, acc => acc.reverse
+  | it :: rest, st, acc =>
+    match it with
+    | num :: m :: szx :: etag :: fmt :: tl =>
+      if szx > 6 ∨ m > 1 ∨ etag > 255 ∨ fmt > 255 ∨ tl.length > 1 then ("bad-op" :: acc).reverse else
+      let chunk := 2 ^ (szx + 4)
+      let off := if num * chunk > body.length then body.length else num * chunk
+      let plen0 := if body.length - off < chunk then body.length - off else chunk
+      let plen := match tl with
+        | [l] => if l ≤ body.length - off then l else plen0
+        | _ => plen0
+      let r : Resp := { blk := some (num, m, szx), payload := (body.drop off).take plen, size2 := size2,
+                        etag := if etag = 0 then none else some [UInt8.ofNat etag], fmt := fmt }
+      let (st', o) := crcvStep single Coap.Generated.rblockCnt 0 st r
+      crcvRun single body size2 rest st' ((showCrcvOut o ++ "/" ++ showCrcvState st') :: acc)
+    | _ => ("bad-op" :: acc).reverse
+
+def crcvLine (args : List String) : String :=
+  match args with
+  | [a, b, c, d, seq] =>
+    match nat? a, nat? b, nat? c with
+    | some single, some bodyLen, some seed =>
+      match (seq.split (· == ',')).toList.mapM (fun x => splitNats x.toString '.') with
+      | none => "bad-op"
+      | some its => "M " ++ String.intercalate ","
+          (crcvRun (single != 0) (mkBody bodyLen seed) (if d = "-" then none else nat? d) its none [])
+    | _, _, _ => "bad-op"
+  | _ => "bad-op"
 
 def srcv2Step (args : List String) : String := step "srcv2" args
 def boptStep (args : List String) : String := step "bopt" args
